@@ -4,3 +4,4 @@ pub mod render;
 pub mod replay;
 pub mod srng;
 pub mod vclock;
+pub mod watchdog;
